@@ -42,7 +42,7 @@ def relabel(rng, y):
   return out
 
 
-def dataset(rng, d=None, n_classes=None, per_class=None, sep=2.0, bits=GRID_BITS):
+def dataset(rng, d=None, n_classes=None, per_class=None, sep=2.0, bits=GRID_BITS, unbalanced=False):
   """well-formed classification data on the dyadic grid; returns X (n,d), y (n,) ints 0..c-1"""
   d = d or int(rng.integers(2, 6))
   n_classes = n_classes or int(rng.integers(2, 4))
@@ -53,6 +53,8 @@ def dataset(rng, d=None, n_classes=None, per_class=None, sep=2.0, bits=GRID_BITS
     X, y = [], []
     for c in range(n_classes):
       m = per_class + (int(rng.integers(0, 3)) if c else 0)
+      if unbalanced and c:
+        m = per_class * int(rng.integers(2, 4))          # the first class is the small one (>= 4 members as everywhere)
       X.append(centers[c] + rng.normal(size=(m, d)).dot(A.T))
       y += [c] * m
     X = grid(np.vstack(X), bits)
